@@ -44,7 +44,7 @@ CHECKS["C10"] = ("stateful property-based testing (Hypothesis RuleBasedStateMach
     "Value domain finite numbers and strings (no NaN/inf); plain-value semantics decided by C01/C02.", "3/C10")
 CHECKS["C11"] = ("stateful property-based testing (Hypothesis RuleBasedStateMachine): long-lived Sampler/QuickSampler/Analyzer compared after every read with freshly constructed objects of the same configuration",
     "Histories of reconfigurations (circuit reassignment incl. same components with different heralding, in-place circuit edits, parameters, input, source, backend, post-selection, detector) interleaved with distribution reads, seeded sampling, sample() and analyses; every read must equal what a fresh object returns (distribution, seeded samples, result attributes, or the same exception type).",
-    "Differential oracle (fresh object) - exactness of the fresh object's answers is decided by C04-C07.", "3/C11")
+    "Differential oracle (fresh object) - exactness of the fresh object's answers is decided by C04-C07; calls on the long-lived objects run under a 60 s CPU-time guard (a call that does not return is reported); what a read returned may be edited by the caller.", "3/C11")
 
 CHECKS["C12"] = ("property-based testing (Hypothesis): generated qiskit circuits converted and compared, amplitude by amplitude (own permanent), with qiskit's Operator up to one common scalar; refusals classified",
     "Generated qiskit circuits over the full supported gate set on 2-4 qubits (any qubit pairs/triples, either order, both post-selection modes, forced patterns of three-qubit gates followed by two-qubit gates and swaps between entangling gates); accepted amplitudes for every basis input must be k x Operator(qc) with the stated |k|^2, nothing accepted outside the qubit subspace; a refusal must be a ValueError in a legitimate class.",
